@@ -290,6 +290,11 @@ def c02(run, ctx):
     fam_vm.state_methods(run, ctx)
     fam_vm.backtrack_cut(run, ctx)
     fam_vm.atomic_arms(run, ctx)
+    # "the last iteration that entered the group": which iteration is the last is decided by the counted-repeat arms
+    # (a lazy loop whose count is rolled back runs past hi and leaves a later iteration's capture) and by the
+    # compiler's choice among them
+    fam_vm.repeat_arms(run, ctx)
+    fam_tmpl.compile_repeat(run, ctx)
     fam_parse.group_counting(run, ctx)
     fam_xfer.analyzer_rule(run, ctx)
 
